@@ -40,7 +40,7 @@ func ruleR12(c *Ctx) {
 	info := c.m.Info
 	minmax := map[*types.Func]bool{}
 	for _, n := range []string{"minimum", "maximum"} {
-		if u := c.m.ByName[n]; u != nil && u.Obj != nil {
+		if u := c.m.unitByBase(n); u != nil && u.Obj != nil {
 			minmax[u.Obj] = true
 		}
 	}
